@@ -751,13 +751,18 @@ inline bool lines_S(Rng& r, uint64_t idx)
   World w;
   w.tag = "nS" + std::to_string(idx);
   w.random_backend_options(r);
-  w.make_sinks(2);
-  w.sinks[0]->keep_stmt.store(true);
-  w.sinks[1]->keep_stmt.store(true);
+  // sinks 0 / 1: the plain sinks of the two loggers; 2 and 4 carry an override pattern and are attached BEFORE the plain
+  // ones, 3 and 5 are further plain sinks attached after them: every sink gets the line of its own pattern
+  w.make_sinks(6, [&](uint32_t i) -> std::optional<quill::PatternFormatterOptions>
+               {
+                 if (i != 2 && i != 4) return std::nullopt;
+                 return quill::PatternFormatterOptions{"O" + std::to_string(i) + "|%(message)|%(log_level_short_code)|%(logger)", "%H:%M:%S.%Qns", quill::Timezone::GmtTime, i == 2};
+               });
+  for (auto& sk : w.sinks) sk->keep_stmt.store(true);
   quill::PatternFormatterOptions on{"P|%(logger)|%(log_level_short_code)|%(message)|Q", "%H:%M:%S.%Qns", quill::Timezone::GmtTime, true};
   quill::PatternFormatterOptions off{"P|%(logger)|%(log_level_short_code)|%(message)|Q", "%H:%M:%S.%Qns", quill::Timezone::GmtTime, false};
-  w.make_logger({0}, on);
-  w.make_logger({1}, off);
+  w.make_logger({2, 0, 3}, on);
+  w.make_logger({4, 1, 5}, off);
   recorder().clear();
   SRun run{w, r};
   World* wp = &w;
@@ -854,24 +859,26 @@ inline bool lines_S(Rng& r, uint64_t idx)
         ok = false;
       }
     }
-    std::vector<std::string> got[2];
+    std::vector<std::string> got[6];
     for (auto const& e : evs)
-      if (e.kind == 'w' && e.sink >= w.sink_id_base && e.sink < w.sink_id_base + 2) got[e.sink - w.sink_id_base].push_back(e.stmt);
-    std::vector<std::string> want[2];
+      if (e.kind == 'w' && e.sink >= w.sink_id_base && e.sink < w.sink_id_base + 6) got[e.sink - w.sink_id_base].push_back(e.stmt);
+    std::vector<std::string> want[6];
     for (auto const& s : sent)
     {
-      std::string const pre = "P|" + w.loggers[s.first].name + "|I|";
+      std::string const& lname = w.loggers[s.first].name;
       std::string const& m = s.second;
+      // the message lines the statement yields for this logger
+      std::vector<std::string> parts;
       if (s.first == 0)
       {
         // one complete line per message line; a single trailing newline does not add an empty line; empty -> one line
-        if (m.empty()) { want[0].push_back(pre + "|Q\n"); continue; }
+        if (m.empty()) parts.push_back("");
         size_t start = 0;
         while (start < m.size())
         {
           size_t end = m.find('\n', start);
-          if (end == std::string::npos) { want[0].push_back(pre + m.substr(start) + "|Q\n"); break; }
-          want[0].push_back(pre + m.substr(start, end - start) + "|Q\n");
+          if (end == std::string::npos) { parts.push_back(m.substr(start)); break; }
+          parts.push_back(m.substr(start, end - start));
           start = end + 1;
         }
       }
@@ -879,17 +886,20 @@ inline bool lines_S(Rng& r, uint64_t idx)
       {
         std::string t = m;
         if (!t.empty() && t.back() == '\n') t.pop_back();
-        want[1].push_back(pre + t + "|Q\n");
+        parts.push_back(t);
       }
+      for (uint32_t si : w.loggers[s.first].sinks)
+        for (auto const& part : parts)
+          want[si].push_back((si == 2 || si == 4) ? "O" + std::to_string(si) + "|" + part + "|I|" + lname + "\n" : "P|" + lname + "|I|" + part + "|Q\n");
     }
-    for (int k = 0; k < 2 && ok; ++k)
+    for (int k = 0; k < 6 && ok; ++k)
     {
       size_t i = 0;
       while (i < got[k].size() && i < want[k].size() && got[k][i] == want[k][i]) ++i;
       if (i != got[k].size() || i != want[k].size())
       {
-        violation("C12", k == 0 ? "multi-line-statement-lines-differ" : "single-statement-with-newlines-differs",
-                  J{}.unum("first_difference_at", i).str("got", i < got[k].size() ? got[k][i] : "<none>").str("want", i < want[k].size() ? want[k][i] : "<none>").unum("got_lines", got[k].size()).unum("want_lines", want[k].size()).boolean("add_metadata_to_multi_line_logs", k == 0).str("scenario", "lines_S"));
+        violation("C12", (k == 2 || k == 4) ? "sink-with-override-pattern-gets-other-line" : (k == 3 || k == 5) ? "plain-sink-after-override-sink-gets-other-line" : k == 0 ? "multi-line-statement-lines-differ" : "single-statement-with-newlines-differs",
+                  J{}.num("sink", k).unum("first_difference_at", i).str("got", i < got[k].size() ? got[k][i] : "<none>").str("want", i < want[k].size() ? want[k][i] : "<none>").unum("got_lines", got[k].size()).unum("want_lines", want[k].size()).boolean("add_metadata_to_multi_line_logs", k == 0 || k == 2 || k == 3).str("scenario", "lines_S"));
         ok = false;
       }
     }
